@@ -101,9 +101,14 @@ func VerifH_v4_seq() {
 				vnd.Assert(err != nil, "C06 sequence: Free of an address that is not outstanding fails")
 			}
 		}
+		// one word when the table has its usual shape; bit by bit otherwise (a table that is sized lazily)
 		same := true
-		for i := 0; i < n; i++ {
-			same = vnd.And(same, a.bitmap.Test(uint(i)) == (m>>uint(i)&1 == 1))
+		if w := a.bitmap.Bytes(); len(w) == 1 {
+			same = w[0] == m
+		} else {
+			for i := 0; i < n; i++ {
+				same = vnd.And(same, a.bitmap.Test(uint(i)) == (m>>uint(i)&1 == 1))
+			}
 		}
 		vnd.Assert(same, "C04 sequence: the allocator's bookkeeping equals the set of outstanding addresses after every call")
 		vnd.Assert(same, "C05 sequence: the allocator accounts for exactly the addresses handed out and not freed (N addresses, never more than N outstanding)")
@@ -184,9 +189,14 @@ func VerifH_v6_seq() {
 				vnd.Assert(err != nil, "C06 sequence: Free of a block that is not outstanding fails")
 			}
 		}
+		// one word when the table has its usual shape; bit by bit otherwise (a table that is sized lazily)
 		same := true
-		for i := 0; i < n; i++ {
-			same = vnd.And(same, a.bitmap.Test(uint(i)) == (m>>uint(i)&1 == 1))
+		if w := a.bitmap.Bytes(); len(w) == 1 {
+			same = w[0] == m
+		} else {
+			for i := 0; i < n; i++ {
+				same = vnd.And(same, a.bitmap.Test(uint(i)) == (m>>uint(i)&1 == 1))
+			}
 		}
 		vnd.Assert(same, "C04 sequence: the allocator's bookkeeping equals the set of outstanding blocks after every call")
 		vnd.Assert(same, "C05 sequence: the allocator accounts for exactly the blocks handed out and not freed (N blocks, never more than N outstanding)")
